@@ -52,7 +52,10 @@ META = dict(
         "counted as borderline, never on exact data.  Missing values: no "
         "recurrence in rows/columns of NaN states; for the rate modes only "
         "this and monotonicity (every recurrent valid pair closer than every "
-        "non-recurrent valid pair of the same row/matrix) are demanded.  "
+        "non-recurrent valid pair of the same row/matrix) are demanded, for "
+        "the adaptive mode only this.  A network class whose construction "
+        "fails is tagged single-node when the reference network has <=1 "
+        "node.  "
         "Consistency monitor on every object: size attributes == matrix "
         "shape, recurrence_rate() == matrix mean, every RQA method runs "
         "(documented NotImplementedError of CrossRecurrencePlot accepted) "
@@ -61,22 +64,26 @@ META = dict(
         "metric, data, parameters) whose reference matrix has both a "
         "recurrent and a non-recurrent off-diagonal pair."),
     floors={
-        "quick": {"rp_matrix_compared": 3000, "distance_compared": 600,
-                  "tie_cases": 800, "crp_matrix_compared": 60,
-                  "jrp_matrix_compared": 80, "jrp_lag_nonzero": 40,
-                  "isrn_matrix_compared": 40, "adjacency_compared": 150,
-                  "rqa_values_compared": 15000, "missing_cases": 40,
-                  "embedded_cases": 300, "local_rate_rows_exact": 300,
-                  "unequal_length_cases": 60, "setter_cases": 60,
-                  "rate_cases": 100},
-        "thorough": {"rp_matrix_compared": 12000, "distance_compared": 5000,
-                     "tie_cases": 3000, "crp_matrix_compared": 500,
-                     "jrp_matrix_compared": 600, "jrp_lag_nonzero": 300,
-                     "isrn_matrix_compared": 300, "adjacency_compared": 1200,
-                     "rqa_values_compared": 100000, "missing_cases": 400,
-                     "embedded_cases": 2000, "local_rate_rows_exact": 5000,
-                     "unequal_length_cases": 500, "setter_cases": 500,
-                     "rate_cases": 1000}},
+        "quick": {"rp_matrix_compared": 7000, "distance_compared": 7000,
+                  "tie_cases": 3500, "crp_matrix_compared": 500,
+                  "jrp_matrix_compared": 900, "jrp_lag_nonzero": 500,
+                  "isrn_matrix_compared": 400, "adjacency_compared": 4000,
+                  "rqa_values_compared": 150000, "missing_cases": 600,
+                  "embedded_cases": 3500, "local_rate_rows_exact": 3000,
+                  "unequal_length_cases": 800, "setter_cases": 1000,
+                  "rate_cases": 1500, "adaptive_checked": 60,
+                  "size_attr_compared": 10000, "rate_compared": 8000},
+        "thorough": {"rp_matrix_compared": 48000, "distance_compared": 50000,
+                     "tie_cases": 26000, "crp_matrix_compared": 4000,
+                     "jrp_matrix_compared": 6000, "jrp_lag_nonzero": 3600,
+                     "isrn_matrix_compared": 3800,
+                     "adjacency_compared": 28000,
+                     "rqa_values_compared": 1000000, "missing_cases": 4000,
+                     "embedded_cases": 26000,
+                     "local_rate_rows_exact": 40000,
+                     "unequal_length_cases": 6000, "setter_cases": 6000,
+                     "rate_cases": 12000, "adaptive_checked": 500,
+                     "size_attr_compared": 70000, "rate_compared": 55000}},
     exhaustive_subspaces={
         "quick": ["scalar series over {0,1,2}, length 1..5, 3 metrics, 6 "
                   "thresholds incl. ties, plain and (2,1)-embedded"],
@@ -90,8 +97,9 @@ META = dict(
         "generated); embedded length >= 1; |lag| < embedded length",
         "threshold_std uses std of the stored float32 series (all "
         "components), margin 1e-5; normalize margin 1e-4",
-        "white vertical lines are compared as a plain count of the matrix "
-        "(the library has no missing-value variant; C08 examines that)"],
+        "white vertical lines follow the same missing-value rule as black "
+        "ones (runs touching a missing sample are not counted), as the "
+        "property states"],
     technique="differential testing against a definitional oracle + "
               "consistency monitor",
     level_text="bounded exhaustive + seeded random exploration",
@@ -221,7 +229,7 @@ def rqa_monitor(ctx, obj, cname, R, miss, tags, case, cid, r,
     if size_ok and R.ndim == 2 and R.shape[0] == R.shape[1]:
         refh = {"diagline_dist": ref.diag_hist(R, miss),
                 "vertline_dist": ref.vert_hist(R, True, miss),
-                "white_vertline_dist": ref.vert_hist(R, False, None)}
+                "white_vertline_dist": ref.vert_hist(R, False, miss)}
     t0 = tuple(x for x in tags if x != "asymmetric")
     ta = t0 if sym else ("asymmetric",)
     okh = {}
@@ -597,11 +605,12 @@ def judge_single(ctx, obj, cname, E, metric, mode, value, missing, tags,
     good = True
     Rref = None
     D = eps = None
-    if mode == "adaptive_neighborhood_size":
-        good = judge_adaptive(ctx, cname, Rlib, n, value, mtags, case, cid)
+    if mode == "adaptive_neighborhood_size" and not has_nan:
+        good = judge_adaptive(ctx, cname, Rlib, n, value, mtags, case, cid,
+                              ref.distance_matrix(E, E, metric))
         Rref = Rlib
     elif has_nan and mode not in ("threshold", "threshold_std"):
-        # only the missing-value rule and monotonicity
+        # only the missing-value rule and (rate modes) monotonicity
         D = ref.distance_matrix(E, E, metric)
         valid = ~miss
         if Rlib.shape != (n, n):
@@ -614,7 +623,8 @@ def judge_single(ctx, obj, cname, E, metric, mode, value, missing, tags,
                               "recurrence-at-missing-state",
                               mtags + [mode]),
                           {**case, "lib": Rlib, "missing_states": miss}, cid)
-        if not monotone_ok(Rlib, D, valid, mode == "local_recurrence_rate"):
+        if mode != "adaptive_neighborhood_size" and not monotone_ok(
+                Rlib, D, valid, mode == "local_recurrence_rate"):
             good = False
             ctx.violation(sig(cname, "recurrence_matrix",
                               "not-a-threshold-of-distances", mtags),
@@ -687,7 +697,7 @@ def judge_single(ctx, obj, cname, E, metric, mode, value, missing, tags,
                     "tags": tags})
 
 
-def judge_adaptive(ctx, cname, Rlib, n, size, tags, case, cid):
+def judge_adaptive(ctx, cname, Rlib, n, size, tags, case, cid, D):
     ctx.count("adaptive_checked")
     t = tags + ["adaptive_neighborhood_size"]
     if Rlib.shape != (n, n):
@@ -702,6 +712,11 @@ def judge_adaptive(ctx, cname, Rlib, n, size, tags, case, cid):
     deg = Rlib.sum(axis=1) - np.diag(Rlib)
     if (deg < size).any():
         good = False
+        i = int(np.argmax(deg < size))
+        if np.sum(D[i, :] == 0) > 1:
+            # another state coincides with state i: the sorted neighbour
+            # list need not start with i itself
+            t = t + ["duplicate-states"]
         ctx.violation(sig(cname, "recurrence_matrix",
                           "fewer-neighbours-than-requested", t),
                       {**case, "lib": Rlib, "degrees": deg}, cid)
@@ -897,9 +912,8 @@ def draw_cross(ctx, mods, r, cid, nmax):
         ctx.violation(sig(cname, "distance_matrix",
                           f"raises:{type(Dlib).__name__}", tags),
                       {**case, "exc": repr(Dlib)}, cid)
-    size_ok = check_size(ctx, obj, cname, {"N": Rlib.shape[0],
-                                           "M": Rlib.shape[1]},
-                         tags, case, cid)
+    check_size(ctx, obj, cname, {"N": Rlib.shape[0], "M": Rlib.shape[1]},
+               tags, case, cid)
     check_rate(ctx, obj, cname, Rlib, float(Rlib.size), tags, case, cid)
     ok, v = ctx.call(obj.cross_recurrence_rate)
     ctx.evals()
@@ -1293,7 +1307,7 @@ def run(ctx):
                                      rqa=((idx + mi + ei) % 5 == 0))
     ctx.note("exhaustive_series", idx)
     # 2..5 random
-    caps = {"rp": 30000, "crp": 6000, "jrp": 8000, "isrn": 5000} \
+    caps = {"rp": 75000, "crp": 15000, "jrp": 20000, "isrn": 12500} \
         if ctx.thorough else {"rp": 9600, "crp": 1600, "jrp": 2400,
                               "isrn": 1200}
     draws = {"rp": draw_single, "crp": draw_cross, "jrp": draw_joint,
